@@ -243,6 +243,13 @@ def invalid(jp, rec, R, spec):
                 rec.violation("accepted-invalid-literal:" + cls, {"query": query, "class": cls, "compiled_to": str(o[1])})
             elif o[0] == "exc":
                 rec.violation("invalid-literal-raises-" + type(o[1]).__name__, {"query": query, "class": cls, "observed": mon.describe_outcome(o)})
+            # a rejected literal must not leave anything behind: the next valid literal on the same environment decodes alone
+            sd = {"c": [1], "abc": [2], "ac": [3], "": [4]}
+            so = mon.observe(jp.find, "$['c', \"\\u0063\"]", sd)
+            rec.monitor("M-find")
+            if so[0] != "ok" or [(n.location, id(n.value)) for n in so[1]] != [(("c",), id(sd["c"])), (("c",), id(sd["c"]))]:
+                rec.violation("literal-after-rejected-literal", {"rejected_query": query, "then": "$['c', \"\\u0063\"]",
+                                                                 "observed": [jsonable(list(n.location)) for n in so[1]] if so[0] == "ok" else mon.describe_outcome(so)})
     rec.sample({"invalid_literals": [t for _, t in cases[:8]]}, limit=2)
 
 
